@@ -38,8 +38,10 @@ MANIFEST = {
             'that is not completed is PAUSED in the same transaction, which creates no row and only moves RUNNING to '
             'PAUSED; the RUNNING plain calling task of each execution it pauses is PAUSED in the same transaction, for a '
             'with-items calling task the update job is pending; Lemmas/TreeProp, Lemmas/TreeFollow; needs repo patch 23 '
-            'for executions below a finished child). NOT proved for all trees: resume brings them back (decided by the '
-            'tree stream and its monitors).',
+            'for executions below a finished child). resume_pauses_nothing / resume_acknowledged_tree (EVERY tree and state: a '
+            'resume request never raises, pauses nothing, and the resumed execution leaves PAUSED; Lemmas/TreeResume). NOT '
+            'proved for all trees: every PAUSED execution below the resumed one is resumed (decided by the tree stream and '
+            'its monitors).',
 }
 RULE = ('stream core: data-free single-activation programs x oracles x schedules x pause/resume/stop at random points, '
         'model vs real after every event; stream engine (mode pause): generated programs with data flow, pause and '
